@@ -142,7 +142,9 @@ def parseOp (ws : List String) : Option Op :=
 
 /-- what the recording filter of port `k` reports as its estimates (harness `RecFilter::current_estimates`) -/
 def estOffset (k : Nat) : Int := -(((1000 + k : Nat) : Int) * (F32 : Int)) - 7
-def estDelay (k : Nat) : Int := ((2000 + k : Nat) : Int) * (F32 : Int) + 9
+def estDelay (k : Nat) : Int :=
+  let v : Int := ((2000 + k : Nat) : Int) * (F32 : Int) + 9
+  if k % 2 = 1 then -v else v
 
 /-- `Port::port_ds()` as text -/
 def showPortDS (k : Nat) (p : Port) : String :=
@@ -180,6 +182,11 @@ def instLine (cur : Option Inst) (ws : List String) : Option Inst × String :=
   | ["DUMP"] =>
     match cur with
     | some i => (cur, showObservable i)
+    | none => (none, "dead")
+  | ["SET", "clock_props_fail", _] =>
+    -- the host's clock starts / stops refusing `set_properties`: nothing the library keeps depends on the answer
+    match cur with
+    | some i => (cur, "- | R ok | " ++ showState i ++ " | L -")
     | none => (none, "dead")
   | "INIT" :: rest =>
     match parseInit rest with
